@@ -128,6 +128,9 @@ type Machine struct {
 	// Steps counts loop iterations of the 15.4.4 algorithms; beyond StepLimit (when > 0) the model
 	// panics with TooLong.
 	Steps, StepLimit int
+	// LenLimit (when > 0): a 15.4.4 algorithm other than push/pop applied to a receiver whose
+	// length exceeds it panics with TooLong (array-likes above 10^4 are outside the checked domain).
+	LenLimit float64
 }
 
 func (m *Machine) ThrowType()  { panic(&Throw{Class: "TypeError"}) }
@@ -173,7 +176,7 @@ func (m *Machine) NewFunction(name string, fn func(m *Machine, this Value, args 
 
 // NewMachine builds a fresh realm.
 func NewMachine() *Machine {
-	m := &Machine{StepLimit: 30000}
+	m := &Machine{StepLimit: 30000, LenLimit: 20000}
 	m.ObjectProto = m.newObj("Object", nil)
 	m.ObjectProto.Name = "OP"
 	m.FunctionProto = m.newObj("Function", m.ObjectProto)
